@@ -57,6 +57,11 @@ type fcall struct {
 	// id the call reported through WithIDCallback replaces c.id before the case is printed, i.e.
 	// the model sees the call as Add(<reported id>) (see notes/C02.md, generated ids)
 	genCands [][]byte
+	// CaseGen scenarios (genid.go): the raw byte strings this call's rng reads return (o.genID), and
+	// what its callbacks were handed during the run (reset by exec)
+	cands    [][]byte
+	reported []string
+	created  int
 }
 
 func (c *fcall) coq() string {
@@ -127,6 +132,7 @@ type scenario struct {
 	cinit        []initItem // sorted by id
 	prog         []*fcall
 	tags         []string
+	idLower      bool // the collection has the (non-injective) id interceptor asciiLower
 	// after[t]: thread t takes its first step only when these threads have ended (one writer issuing
 	// its calls one after the other = a chain); nil = no constraint
 	after map[int][]int
@@ -146,6 +152,7 @@ type runResult struct {
 	cstreams map[int][]ochange
 	closed   []int
 	err      error
+	stray    string // the collection holds items under ids no call of the program stores under
 }
 
 type world struct {
@@ -163,7 +170,9 @@ type world struct {
 	lclosed  map[int]bool
 	lpid     map[int]string
 	rng      *gidRNG
-	extraIDs []string       // generated ids reported by the calls
+	stray    string
+	idLower  bool
+	extraIDs []string       // generated ids reported by the calls, and every id the scenario mentions
 	pids     map[int]string // PullID subscribers: thread -> id
 	closed   map[int]bool   // PullID subscribers whose channel has been closed
 	wg       sync.WaitGroup
@@ -178,7 +187,21 @@ func newWorld(sc *scenario) *world {
 	}
 	w.val = resource.NewValue(vopts...)
 	w.rng = &gidRNG{bufs: map[int64][][]byte{}}
-	w.coll = resource.NewCollection(resource.WithClock(&fakeClock{}), resource.WithRNG(w.rng))
+	copts := []resource.Option{resource.WithClock(&fakeClock{}), resource.WithRNG(w.rng)}
+	if sc.idLower {
+		copts = append(copts, resource.WithIDInterceptor(asciiLower))
+	}
+	w.coll = resource.NewCollection(copts...)
+	w.idLower = sc.idLower
+	for _, it := range sc.cinit {
+		w.extraIDs = append(w.extraIDs, it.id)
+	}
+	for _, c := range sc.prog {
+		w.extraIDs = append(w.extraIDs, c.id)
+		if c.o != nil && c.o.genID {
+			w.extraIDs = append(w.extraIDs, encCands(c.cands)...)
+		}
+	}
 	for _, it := range sc.cinit {
 		if _, err := w.coll.Update(it.id, toProto(it.m), resource.WithCreateIfAbsent(), resource.WithWriteTime(time.Unix(0, it.t))); err != nil {
 			panic(err)
@@ -207,9 +230,13 @@ func (w *world) exec(t int, c *fcall) fout {
 		m, err := w.val.Set(toProto(c.msg), c.o.opts()...)
 		return fout{fromProto(nilIfErr(m, err)), code(err)}
 	case kUpdate:
-		m, err := w.coll.Update(c.id, toProto(c.msg), c.o.opts()...)
+		m, err := w.coll.Update(c.id, toProto(c.msg), w.cbOpts(c)...)
 		return fout{fromProto(nilIfErr(m, err)), code(err)}
 	case kAdd:
+		if c.o.genID || c.o.idCb || c.o.createdCb {
+			m, err := w.coll.Add(c.id, toProto(c.msg), w.cbOpts(c)...)
+			return fout{fromProto(nilIfErr(m, err)), code(err)}
+		}
 		if c.genCands != nil {
 			w.rng.set(curGID(), c.genCands)
 			reported := ""
@@ -304,6 +331,26 @@ func (w *world) exec(t int, c *fcall) fout {
 	panic("bad call")
 }
 
+// cbOpts: the call's options plus the callbacks / the generator, logging into the call
+func (w *world) cbOpts(c *fcall) []resource.WriteOption {
+	opts := c.o.opts()
+	if !(c.o.genID || c.o.idCb || c.o.createdCb) {
+		return opts
+	}
+	c.reported, c.created = nil, 0
+	if c.o.genID {
+		w.rng.set(curGID(), c.cands)
+		opts = append(opts, resource.WithGenIDIfAbsent())
+	}
+	if c.o.idCb {
+		opts = append(opts, resource.WithIDCallback(func(id string) { c.reported = append(c.reported, id) }))
+	}
+	if c.o.createdCb {
+		opts = append(opts, resource.WithCreatedCallback(func() { c.created++ }))
+	}
+	return opts
+}
+
 // a typed nil inside the interface would not be nil for fromProto
 func nilIfErr(m proto.Message, err error) proto.Message {
 	if err != nil {
@@ -326,6 +373,7 @@ func (w *world) finish(r *runResult) {
 		_ = m
 	}
 	r.finalC = w.list()
+	r.stray = w.stray
 	// the readers without backpressure keep receiving: until every goroutine of their pipelines is
 	// blocked and nothing is offered any more
 	for _, t := range w.lossyThreads() {
@@ -518,7 +566,10 @@ func (w *world) list() []kv {
 	out := []kv{}
 	seenID := map[string]bool{}
 	for _, id := range append(append([]string{}, knownIDs...), w.extraIDs...) {
-		if seenID[id] {
+		if w.idLower {
+			id = asciiLower(id) // the stored id
+		}
+		if seenID[id] || id == "" {
 			continue
 		}
 		seenID[id] = true
@@ -527,7 +578,8 @@ func (w *world) list() []kv {
 		}
 	}
 	if n := len(w.coll.List()); n != len(out) {
-		panic(fmt.Sprintf("collection holds %d items, %d under the known ids", n, len(out)))
+		// reported as a direct violation by emitCase / emitGen (an item stored under an id the calls do not name)
+		w.stray = fmt.Sprintf("the collection holds %d items, %d of them under the ids the program's calls store under", n, len(out))
 	}
 	sort.Slice(out, func(i, j int) bool { return out[i].id < out[j].id })
 	return out
@@ -615,10 +667,23 @@ func (k *tickets) enabled(t int, th *thread) bool {
 		if len(k.pendC) == 0 {
 			return true
 		}
-		id := k.sc.prog[t].id
+		id := k.key(k.sc.prog[t])
 		return k.ver[id] != k.seenVer[t] || !k.seenPresent[t]
 	}
 	return true
+}
+
+// key: the id a call's item is stored under (through the id interceptor; for a generating call, the id it
+// reported)
+func (k *tickets) key(c *fcall) string {
+	id := c.id
+	if id == "" && c.o != nil && c.o.genID && len(c.reported) > 0 {
+		id = c.reported[0]
+	}
+	if k.sc.idLower {
+		id = asciiLower(id)
+	}
+	return id
 }
 
 func dropInt(l []int, t int) []int {
@@ -638,8 +703,8 @@ func (k *tickets) after(t int, th *thread, res fout) {
 		k.pendV, k.pendC = dropInt(k.pendV, t), dropInt(k.pendC, t)
 		if c.kind == kDelete && res.code == 0 && res.msg != nil && !k.inC[t] {
 			k.inC[t] = true // counted once
-			k.ver[c.id]++
-			k.present[c.id] = false
+			k.ver[k.key(c)]++
+			k.present[k.key(c)] = false
 		}
 		return
 	}
@@ -654,13 +719,13 @@ func (k *tickets) after(t int, th *thread, res fout) {
 			k.inC[t] = true
 			k.pendC = append(k.pendC, t)
 			if c.genCands == nil {
-				k.ver[c.id]++
-				k.present[c.id] = true
+				k.ver[k.key(c)]++
+				k.present[k.key(c)] = true
 			}
 		}
 	case "del.read", "del.retry":
-		k.seenVer[t] = k.ver[c.id]
-		k.seenPresent[t] = k.present[c.id]
+		k.seenVer[t] = k.ver[k.key(c)]
+		k.seenPresent[t] = k.present[k.key(c)]
 	}
 }
 
@@ -868,6 +933,11 @@ func emitCase(o *vcoq.Out, sc *scenario, r *runResult, extraTags []string) {
 			Class:  class,
 			Replay: map[string]any{"program": jsProg(sc), "schedule": r.sched},
 		})
+		return
+	}
+	if r.stray != "" {
+		o.Directs = append(o.Directs, vcoq.Direct{What: r.stray, Class: "stray-item",
+			Replay: map[string]any{"program": jsProg(sc), "schedule": r.sched}})
 		return
 	}
 	prog := make([]string, len(sc.prog))
@@ -1124,6 +1194,7 @@ func genC02(o *vcoq.Out, r *vcoq.Rand, tier string) error {
 		rr := runSchedule(sc, nil, func(alive []int) int { return alive[r.Intn(len(alive))] })
 		emitCase(o, sc, rr, nil)
 	}
+	genIDCases(o, r, tier, base)
 	if tier == "thorough" {
 		stress(o, r, base)
 	}
